@@ -105,6 +105,7 @@ def propCfg (c : Case) (n : Nat) (ref : Run) (p : String) (cf : Conf) (r : Run) 
   let dims := c.int (p ++ "dims")
   let (nl, nu) := recount (c.int (p ++ "xsup")) (c.int (p ++ "xlsub")) (c.int (p ++ "xusub")) n (dims.getD 2 0).toNat
   if (nl, nu) ≠ (r.nnzL, r.nnzU) then some s!"{p} reported nnz(L),nnz(U)={r.nnzL},{r.nnzU} but the returned structure holds {nl},{nu}" else
+  if (c.raw (p ++ "mem")).size = 0 then none else
   if c.raw (p ++ "mem") != c.raw "k0.mem" then some s!"{p} mem_usage differs from the reference configuration" else
   -- for_lu describes the returned arrays: exact byte count, rounded to float once or twice
   let w := wordsOf c
@@ -213,12 +214,15 @@ def handle (c : Case) : Res :=
   | none =>
   -- Corr
   let corr := confs.findSome? fun (p, cf, r) =>
-    match replay asIs c p cf r n with
+    match replay current c p cf r n with
     | .ok _ => none
     | .error e1 =>
       match replay fixed c p cf r n with
       | .ok _ => none
-      | .error e2 => some s!"{p} mode={cf.mode} fill={cf.fill} lwork={cf.lwork} align4={cf.align4}: as-is model: {e1}; repaired model: {e2}"
+      | .error e2 =>
+        match replay asIs c p cf r n with
+        | .ok _ => none
+        | .error e3 => some s!"{p} mode={cf.mode} fill={cf.fill} lwork={cf.lwork} align4={cf.align4}: current model: {e1}; repaired model: {e2}; pinned model: {e3}"
   let done := confs.filter fun (_, _, r) => ¬ r.hang ∧ r.info ≤ n
   let nexp := done.filter fun (_, _, r) => r.exp > 0
   let tags := baseTags ++ [s!"done={done.length}", s!"withexp={nexp.length}",
